@@ -62,6 +62,7 @@ func WithBackoffStrategy() *BackoffStrategy {
 
 // Tick implements the Strategy.Tick function.
 func (bos *BackoffStrategy) Tick(retransmitFn RetransmitFn) error {
+	defer verifhook.At("retransmission.backoff.done")
 	bos.tickCounter++
 	verifhook.At("retransmission.backoff.counted")
 
